@@ -83,16 +83,16 @@ theorem isNot_cons_false (s : Bytes) (b : UInt8) (r : Bytes) (hb : s.contains b 
 
 /-! ## progress / safety of parsers
 
-`Good k p`: `p` never runs out of fuel, never panics, and consumes at least `k` bytes on success. -/
+`LGood k p`: `p` never runs out of fuel, never panics, and consumes at least `k` bytes on success. -/
 
-def Good {α} (k : Nat) (p : Parser α) : Prop :=
+def LGood {α} (k : Nat) (p : Parser α) : Prop :=
   ∀ inp, match p inp with
     | .ok r _ => r.length + k ≤ inp.length
     | .err _ => True
     | .oom => False
     | .panic => False
 
-theorem Good.mono {α} {p : Parser α} {j k : Nat} (h : Good k p) (hjk : j ≤ k) : Good j p := by
+theorem LGood.mono {α} {p : Parser α} {j k : Nat} (h : LGood k p) (hjk : j ≤ k) : LGood j p := by
   intro inp
   have := h inp
   split <;> simp_all <;> omega
@@ -102,14 +102,14 @@ theorem isPrefix_length {t inp r : Bytes} (h : isPrefix t inp = some r) : r.leng
   subst this
   simp; omega
 
-theorem good_tag (t : Bytes) : Good t.length (tag t) := by
+theorem lgood_tag (t : Bytes) : LGood t.length (tag t) := by
   intro inp
   unfold tag
   cases h : isPrefix t inp with
   | none => simp
   | some r => simp; exact Nat.le_of_eq (isPrefix_length h)
 
-theorem good_take1 (p : UInt8 → Bool) : Good 1 (take1 p) := by
+theorem lgood_take1 (p : UInt8 → Bool) : LGood 1 (take1 p) := by
   intro inp
   unfold take1
   have h := congrArg List.length (span_append p inp)
@@ -119,20 +119,20 @@ theorem good_take1 (p : UInt8 → Bool) : Good 1 (take1 p) := by
   | nil => simp
   | cons c a => simp at h ⊢; omega
 
-theorem good_isNot (s : Bytes) : Good 1 (isNot s) := by
-  rw [isNot_eq_take1]; exact good_take1 _
+theorem lgood_isNot (s : Bytes) : LGood 1 (isNot s) := by
+  rw [isNot_eq_take1]; exact lgood_take1 _
 
-theorem good_pmap {α β} {p : Parser α} {k : Nat} (f : α → β) (h : Good k p) : Good k (pmap p f) := by
+theorem lgood_pmap {α β} {p : Parser α} {k : Nat} (f : α → β) (h : LGood k p) : LGood k (pmap p f) := by
   intro inp
   have := h inp
   unfold pmap
   cases hp : p inp <;> simp_all
 
-theorem good_value {α β} {p : Parser α} {k : Nat} (v : β) (h : Good k p) : Good k (value v p) :=
-  good_pmap _ h
+theorem lgood_value {α β} {p : Parser α} {k : Nat} (v : β) (h : LGood k p) : LGood k (value v p) :=
+  lgood_pmap _ h
 
-theorem good_seq {α β} {p : Parser α} {q : Parser β} {j k : Nat} (hp : Good j p) (hq : Good k q) :
-    Good (j + k) (seq p q) := by
+theorem lgood_seq {α β} {p : Parser α} {q : Parser β} {j k : Nat} (hp : LGood j p) (hq : LGood k q) :
+    LGood (j + k) (seq p q) := by
   intro inp
   have h1 := hp inp
   unfold seq
@@ -145,19 +145,19 @@ theorem good_seq {α β} {p : Parser α} {q : Parser β} {j k : Nat} (hp : Good 
   | oom => simp_all
   | panic => simp_all
 
-theorem good_preceded {α β} {p : Parser α} {q : Parser β} {j k : Nat} (hp : Good j p) (hq : Good k q) :
-    Good (j + k) (preceded p q) := good_pmap _ (good_seq hp hq)
+theorem lgood_preceded {α β} {p : Parser α} {q : Parser β} {j k : Nat} (hp : LGood j p) (hq : LGood k q) :
+    LGood (j + k) (preceded p q) := lgood_pmap _ (lgood_seq hp hq)
 
-theorem good_terminated {α β} {p : Parser α} {q : Parser β} {j k : Nat} (hp : Good j p) (hq : Good k q) :
-    Good (j + k) (terminated p q) := good_pmap _ (good_seq hp hq)
+theorem lgood_terminated {α β} {p : Parser α} {q : Parser β} {j k : Nat} (hp : LGood j p) (hq : LGood k q) :
+    LGood (j + k) (terminated p q) := lgood_pmap _ (lgood_seq hp hq)
 
-theorem good_pnot {α} {p : Parser α} {k : Nat} (hp : Good k p) : Good 0 (pnot p) := by
+theorem lgood_pnot {α} {p : Parser α} {k : Nat} (hp : LGood k p) : LGood 0 (pnot p) := by
   intro inp
   have h1 := hp inp
   unfold pnot
   cases hp' : p inp <;> simp_all
 
-theorem good_orElse {α} {p q : Parser α} {k : Nat} (hp : Good k p) (hq : Good k q) : Good k (orElse p q) := by
+theorem lgood_orElse {α} {p q : Parser α} {k : Nat} (hp : LGood k p) (hq : LGood k q) : LGood k (orElse p q) := by
   intro inp
   have h1 := hp inp
   have h2 := hq inp
@@ -165,7 +165,7 @@ theorem good_orElse {α} {p q : Parser α} {k : Nat} (hp : Good k p) (hq : Good 
   cases hp' : p inp <;> simp_all
 
 /-- with a progressing inner parser and enough fuel, `many0Go` always succeeds -/
-theorem many0Go_total {α} {p : Parser α} (hp : Good 1 p) :
+theorem many0Go_total {α} {p : Parser α} (hp : LGood 1 p) :
     ∀ n inp acc, inp.length < n → ∃ r vs, many0Go p n inp acc = .ok r vs ∧ r.length ≤ inp.length := by
   intro n
   induction n with
@@ -183,11 +183,11 @@ theorem many0Go_total {α} {p : Parser α} (hp : Good 1 p) :
       obtain ⟨r', vs, h, hl⟩ := ih r (v :: acc) (by omega)
       exact ⟨r', vs, h, by omega⟩
 
-theorem many0_total {α} {p : Parser α} (hp : Good 1 p) (inp : Bytes) :
+theorem many0_total {α} {p : Parser α} (hp : LGood 1 p) (inp : Bytes) :
     ∃ r vs, many0 p inp = .ok r vs ∧ r.length ≤ inp.length :=
   many0Go_total hp _ inp [] (Nat.lt_succ_self _)
 
-theorem good_many0 {α} {p : Parser α} (hp : Good 1 p) : Good 0 (many0 p) := by
+theorem lgood_many0 {α} {p : Parser α} (hp : LGood 1 p) : LGood 0 (many0 p) := by
   intro inp
   obtain ⟨r, vs, h, hl⟩ := many0_total hp inp
   simp [h, hl]
@@ -210,23 +210,23 @@ theorem comment_eq : comment = preceded (tag [64, 42]) commentTail := by
 
 theorem spacelike_eq : spacelike = value () (many0 spaceStep) := rfl
 
-theorem good_commentStep : Good 1 commentStep := by
+theorem lgood_commentStep : LGood 1 commentStep := by
   unfold commentStep alt alt
-  exact good_orElse (good_value _ (good_isNot _))
-    (good_value _ (good_terminated (k := 0) (good_tag [42]) (good_pnot (good_tag [64]))))
+  exact lgood_orElse (lgood_value _ (lgood_isNot _))
+    (lgood_value _ (lgood_terminated (k := 0) (lgood_tag [42]) (lgood_pnot (lgood_tag [64]))))
 
-theorem good_commentTail : Good 0 commentTail := by
+theorem lgood_commentTail : LGood 0 commentTail := by
   rw [commentTail_eq]
-  exact good_preceded (j := 0) (k := 0) (good_many0 good_commentStep)
-    ((good_value _ (good_tag [42, 64])).mono (Nat.zero_le _))
+  exact lgood_preceded (j := 0) (k := 0) (lgood_many0 lgood_commentStep)
+    ((lgood_value _ (lgood_tag [42, 64])).mono (Nat.zero_le _))
 
-theorem good_comment : Good 2 comment := by
+theorem lgood_comment : LGood 2 comment := by
   rw [comment_eq]
-  exact good_preceded (j := 2) (k := 0) (good_tag [64, 42]) good_commentTail
+  exact lgood_preceded (j := 2) (k := 0) (lgood_tag [64, 42]) lgood_commentTail
 
-theorem good_spaceStep : Good 1 spaceStep := by
+theorem lgood_spaceStep : LGood 1 spaceStep := by
   unfold spaceStep alt alt
-  exact good_orElse (good_comment.mono (by omega)) (good_value _ (good_take1 _))
+  exact lgood_orElse (lgood_comment.mono (by omega)) (lgood_value _ (lgood_take1 _))
 
 /-! ## suffix lemmas missing from `NomSound` -/
 
